@@ -25,6 +25,7 @@ func c18(r *core.Report) {
 	c18Dominance(r)
 	c18PtrNull(r)
 	c18Order(r)
+	c18CycleRec(r)
 }
 
 // kind ranges: what encoding/json can emit for a value of the kind (as numbers).
@@ -919,6 +920,88 @@ func c18Order(r *core.Report) {
 				}
 				return true
 			})
+		}
+	})
+}
+
+// c18CycleRec: the function that turns a type met again on the way down into a component reference
+// unwraps pointers, slices and maps to find the type to refer to. A NAMED slice or map type can be
+// its own element type (type M map[string]M): unwrapping it leads straight back to it.
+func c18CycleRec(r *core.Report) {
+	p := r.Prog
+	info := p.Pkg("openapi3gen").TypesInfo
+	r.RunRule("C18.cyclerec", "unwrapping a container type terminates: every self-recursive call of a function of openapi3gen on `t.Elem()` of its reflect.Type parameter, made in a case for reflect.Slice or reflect.Map, is selected by a switch whose tag took the type's Name() into account (a named container that contains itself is referred to, not unwrapped)", 1, func() {
+		n := 0
+		for _, d := range p.AllDecls("openapi3gen") {
+			if d.Body == nil {
+				continue
+			}
+			self, _ := info.Defs[d.Name].(*types.Func)
+			ff := core.NewFuncFacts(p, info, d)
+			ast.Inspect(d.Body, func(nd ast.Node) bool {
+				sw, ok := nd.(*ast.SwitchStmt)
+				if !ok || sw.Tag == nil {
+					return true
+				}
+				for _, st := range sw.Body.List {
+					cc := st.(*ast.CaseClause)
+					container := false
+					for _, e := range cc.List {
+						s := core.ExprStr(e)
+						if s == "reflect.Slice" || s == "reflect.Map" || s == "reflect.Array" {
+							container = true
+						}
+					}
+					if !container {
+						continue
+					}
+					recursesOnElem := false
+					for _, b := range cc.Body {
+						ast.Inspect(b, func(m ast.Node) bool {
+							c, ok := m.(*ast.CallExpr)
+							if !ok || core.CalleeOf(info, c) != self || self == nil {
+								return true
+							}
+							for _, a := range c.Args {
+								if strings.Contains(core.ExprStr(a), ".Elem()") {
+									recursesOnElem = true
+								}
+							}
+							return true
+						})
+					}
+					if !recursesOnElem {
+						continue
+					}
+					n++
+					key := fmt.Sprintf("cyclerec:%s/%s", core.FuncName(d), core.ExprStr(cc.List[0]))
+					namedSeen := false
+					tag := ast.Unparen(sw.Tag)
+					if id, ok := tag.(*ast.Ident); ok {
+						for _, as := range ff.Assigns(info.ObjectOf(id)) {
+							for _, a := range core.Atoms(core.GuardsAt(info, d.Body, as.Stmt)) {
+								if strings.Contains(core.ExprStr(a.Expr), ".Name()") {
+									namedSeen = true
+								}
+							}
+						}
+					}
+					for _, a := range core.Atoms(core.GuardsAt(info, d.Body, cc)) {
+						if strings.Contains(core.ExprStr(a.Expr), ".Name()") {
+							namedSeen = true
+						}
+					}
+					if namedSeen {
+						r.OK(key, p.Pos(cc.Pos()), "named containers are referred to, only unnamed ones are unwrapped")
+					} else {
+						r.Bad(key, p.Pos(cc.Pos()), fmt.Sprintf("%s unwraps every %s type by calling itself on t.Elem(): for a named type that contains itself (type M map[string]M, type L []L) the element is the type again, the recursion never ends and the goroutine's stack overflows — the schema of a recursive type is not finite", core.FuncName(d), core.ExprStr(cc.List[0])))
+					}
+				}
+				return true
+			})
+		}
+		if n == 0 {
+			core.Fail("no self-recursive unwrapping of a container type found in openapi3gen")
 		}
 	})
 }
